@@ -75,6 +75,9 @@ Fixpoint items_of (toks : list token_type) (i : nat) (prev : option tok_kind) (s
 
 Definition INF : N := 1000000%N.
 
+(* the limit under which the content of a bracket is built *)
+Definition blimit (b : bkind) : N := match b with BRound => ROUND_LIMIT | BCurly => INF end.
+
 Definition inside (d : definition) (q : N) : bool :=
   match ref_rank d with
   | Some p => N.ltb p q || (N.eqb p q && ref_rtl d)
@@ -101,7 +104,7 @@ Fixpoint climb (fuel : nat) (q : N) (acc : option rtree) (its : list item) : opt
         | None => None
         end
       | IOpen b i :: r =>
-        match climb f INF None r with
+        match climb f (blimit b) None r with
         | Some (inner, IClose b' _ :: r') =>
           if bkind_eqb b b' then climb f q (Some (RGroup b i inner)) r' else None    (* `( }` is not an expression *)
         | _ => None
@@ -143,6 +146,9 @@ Definition pratt (toks : list token_type) : option rtree :=
 Definition curly_tok (t : token_type) : bool :=
   match ref_kind t with KOpen BCurly | KClose BCurly => true | _ => false end.
 Definition round_only (toks : list token_type) : bool := forallb (fun t => negb (curly_tok t)) toks.
+Definition sep_tok (t : token_type) : bool :=
+  match ref_kind t with KBinary => is_sep_def (ref_def t) | _ => false end.
+Definition no_separators (toks : list token_type) : bool := forallb (fun t => negb (sep_tok t)) toks.
 
 (* the parser's node array as an rtree *)
 Definition norm_atom (d : definition) : definition :=
@@ -190,7 +196,7 @@ Fixpoint tree_of (fuel : nat) (ns : list pnode) (off : nat) (i : nat) : option r
           | _, _ => None
           end
         else None
-      | S_BinaryLeftToRight | S_BinaryRightToLeft | S_OptionalBinaryLeftToRight =>
+      | S_BinaryLeftToRight | S_BinaryRightToLeft | S_OptionalBinaryLeftToRight | S_Subexpression =>
         match sub (n_left n), sub (n_right n) with
         | Some l, Some r => Some (RBin (n_def n) (Some tok) l r)
         | _, _ => None
